@@ -52,6 +52,8 @@ Check C18_generate_idempotent : forall ts ops,
   forall k, ts_run ts (ops ++ repeat TGen k) =
             (fst (ts_run ts ops),
              snd (ts_run ts ops) ++ repeat (snd (ts_generate (fst (ts_run ts ops)))) k).
+Check C18_persist_restore_noop : forall ts ops1 ops2,
+  ts_run ts (ops1 ++ TRt :: ops2) = ts_run ts (ops1 ++ ops2).
 Check C18_wrappers :
   (forall a us, a_ts (asset_run a us) = fold_left ts_update (asset_pts us) (a_ts a)) /\
   (forall s us, i_ts (inst_run s us) = fold_left ts_update (cum_pts (i_pnl s) us) (i_ts s)) /\
